@@ -120,7 +120,7 @@ class Evaluator:
             if isinstance(x, (int, float)):
                 v = x
             elif x == "(":
-                v = addsub()
+                v = bitor()
                 take(")")
             elif x == "-":
                 v = -primary()
@@ -135,7 +135,7 @@ class Evaluator:
                         path.append("<" + ty + ">")
                     else:
                         path.append(take())
-                v = self.path_value(path, peek, take, addsub, fname, expr)
+                v = self.path_value(path, peek, take, bitor, fname, expr)
             else:
                 raise Unresolved(f"cannot evaluate `{expr}` (unexpected {x!r})")
             while peek() == "as":
@@ -168,7 +168,44 @@ class Evaluator:
                 v = v + w if op == "+" else v - w
             return v
 
-        v = addsub()
+        def ints(a, b, op):
+            if not (isinstance(a, int) and isinstance(b, int)):
+                raise Unresolved(f"cannot evaluate `{expr}` ({op} on non-integers)")
+            return a, b
+
+        def shift():
+            v = addsub()
+            while peek() in ("<<", ">>"):
+                op = take()
+                a, b = ints(v, addsub(), op)
+                v = a << b if op == "<<" else a >> b
+            return v
+
+        def bitand():
+            v = shift()
+            while peek() == "&":
+                take()
+                a, b = ints(v, shift(), "&")
+                v = a & b
+            return v
+
+        def bitxor():
+            v = bitand()
+            while peek() == "^":
+                take()
+                a, b = ints(v, bitand(), "^")
+                v = a ^ b
+            return v
+
+        def bitor():
+            v = bitxor()
+            while peek() == "|":
+                take()
+                a, b = ints(v, bitxor(), "|")
+                v = a | b
+            return v
+
+        v = bitor()
         if peek() is not None:
             raise Unresolved(f"cannot evaluate `{expr}` (trailing {peek()!r})")
         return v
@@ -245,12 +282,16 @@ class Evaluator:
                 toks.append("::")
                 i += 2
                 continue
+            if (expr.startswith("<<", i) or expr.startswith(">>", i)) and (not toks or toks[-1] != "::"):
+                toks.append(expr[i:i + 2])
+                i += 2
+                continue
             m = re.match(r"[A-Za-z_][A-Za-z0-9_]*", expr[i:])
             if m:
                 toks.append(m.group(0))
                 i += len(m.group(0))
                 continue
-            if c in "()+-*/%<>.,":
+            if c in "()+-*/%<>.,|&^":
                 toks.append(c)
                 i += 1
                 continue
@@ -316,19 +357,24 @@ def main():
             elif spec[0] == "variant":
                 v = ev.variant(spec[1], spec[2], spec[3])
             else:
-                text = sources.get(spec[1])
-                if text is None:
-                    raise Unresolved(f"{spec[1]} not found")
                 v = None
                 last = None
-                # several places may have the shape of the code site (e.g. a field declaration and its
+                # the code site is looked for in the file it lives in today, then — code moves — in
+                # every other file; several places may have its shape (e.g. a field declaration and its
                 # initialiser): the first whose expression evaluates is the one
-                for m in re.finditer(spec[2], text):
-                    try:
-                        v = ev.eval(m.group(1).strip(), spec[1])
+                order = [spec[1]] + [f for f in sources if f != spec[1]]
+                text = sources.get(spec[1], "")
+                for fn in order:
+                    if fn not in sources:
+                        continue
+                    for m in re.finditer(spec[2], sources[fn]):
+                        try:
+                            v = ev.eval(m.group(1).strip(), fn)
+                            break
+                        except Unresolved as e:
+                            last = e
+                    if v is not None:
                         break
-                    except Unresolved as e:
-                        last = e
                 if v is None and name in RESERVE_ALT:
                     for m in re.finditer(RESERVE_ALT[name], text):
                         try:
